@@ -495,6 +495,14 @@ def _written_through(ctx, fi: FuncInfo, container: ast.expr) -> Optional[tuple]:
         w = member_write(f, nm)
         if w is not None:
             return (f, w)
+        # tables made from this one keep its members:  s = sorted(tab) ; d = {i: s[i] for i in ...} ; for d in tab: other.append(d)
+        for x in own_walk(f.node):
+            if isinstance(x, (ast.Assign, ast.AnnAssign)) and x.value is not None:
+                tg = x.targets[0] if isinstance(x, ast.Assign) else x.target
+                if isinstance(tg, ast.Name) and tg.id != nm and any(norm(y) == nm for y in ast.walk(x.value) if isinstance(y, (ast.Name, ast.Attribute))) \
+                        and not (isinstance(x.value, ast.Call) and isinstance(x.value.func, ast.Name) and x.value.func.id in ("len", "sum", "min", "max", "any", "all", "str", "int", "bool", "float")) \
+                        and not isinstance(x.value, (ast.Compare, ast.BoolOp, ast.Constant)):
+                    work.append((f, tg.id))
         if "." in nm:
             continue
         # handed on as an argument
@@ -539,6 +547,22 @@ def _written_through(ctx, fi: FuncInfo, container: ast.expr) -> Optional[tuple]:
     return None
 
 
+def _receiving_table(fn, comp) -> Optional[ast.expr]:
+    """the table a comprehension's elements end up in: `T = comp`, `T |= comp` / `T += comp`, `T.update(comp)` /
+    `T.extend(comp)`; None when it goes anywhere else (returned, handed on)"""
+    for st in own_walk(fn):
+        if isinstance(st, ast.Assign) and st.value is comp and len(st.targets) == 1 and isinstance(st.targets[0], (ast.Name, ast.Attribute)):
+            return st.targets[0]
+        if isinstance(st, ast.AnnAssign) and st.value is comp and isinstance(st.target, (ast.Name, ast.Attribute)):
+            return st.target
+        if isinstance(st, ast.AugAssign) and st.value is comp and isinstance(st.op, (ast.BitOr, ast.Add)) and isinstance(st.target, (ast.Name, ast.Attribute)):
+            return st.target
+        if isinstance(st, ast.Call) and isinstance(st.func, ast.Attribute) and st.func.attr in ("update", "extend") and len(st.args) == 1 and st.args[0] is comp \
+                and isinstance(st.func.value, (ast.Name, ast.Attribute)):
+            return st.func.value
+    return None
+
+
 @rule("R-ALIAS")
 def r_alias(ctx) -> RuleResult:
     res = RuleResult("R-ALIAS", "no attribute dictionary object is stored for two atoms or two bonds: a dictionary created outside a loop/comprehension is copied per insertion")
@@ -575,6 +599,10 @@ def r_alias(ctx) -> RuleResult:
                 kind, nm = classify(fi, val, bound)
                 if kind == "shared":
                     n += 1
+                    tab = _receiving_table(fn, x)
+                    if tab is not None and _written_through(ctx, fi, tab) is None:
+                        res.inst(fi.fq, short(x), "ok", detail=f"`{nm}` is stored for several entries of `{short(tab)}`, and no entry of that table is written to afterwards (graph construction copies them)")
+                        continue
                     res.inst(fi.fq, short(x), "fail")
                     res.fail(Finding("R-ALIAS", fi.module.rel, fi.qualname, norm(x), f"the same dictionary object `{nm}` is inserted once per iteration: all these atoms share their attributes"
                                      if not isinstance(x, ast.DictComp) else f"the same dictionary object `{nm}` becomes the value of every key", line=x.lineno))
